@@ -143,6 +143,16 @@ def check_case(ctx, case):
     for d in case["descs"]:
         ctx.stat("kind=" + d["kind"])
     ctx.stat(f"entries={len(b.entries)} exits={len(b.exits)} via={case['via']}")
+    # entries and exits, from the user's edges alone: the nodes without predecessor / without successor
+    # (a node linked to nothing is both)
+    ue = [tuple(e) for e in case["edges"]]
+    want_in = sorted(b.nodes[i].name for i in range(len(b.nodes)) if not any(t == i for _, t in ue))
+    want_out = sorted(b.nodes[i].name for i in range(len(b.nodes)) if not any(f == i for f, _ in ue))
+    got_in, got_out = sorted(n.name for n in b.model.input_nodes), sorted(n.name for n in b.model.output_nodes)
+    if got_in != want_in or got_out != want_out:
+        ctx.violation(f"the model's entry / exit nodes are not the nodes without predecessor / successor: entries {got_in} (expected {want_in}), "
+                      f"exits {got_out} (expected {want_out})", case, obligation=ob)
+        return
     # initialise on the first op's first row
     dops, impl_obs, oracle_obs = [], [], []
     # oracle copies are made lazily after initialisation (first op initialises the model)
